@@ -352,9 +352,15 @@ def cfg_plain(kind, c, raw_cfg):
     if kind == "scc_r":
         G.align_lit(c.text_align); return dict(text_align=c.text_align.name)
     if kind == "stl_r":
+        # the model keeps the accepted font_stack string: find it in the configuration sources (whichever the code used)
         raw = None
-        try: raw = raw_cfg["stl_reader"]["font_stack"]
-        except Exception: pass
+        if c.font_stack is not None:
+            from ttconv.imsc import utils
+            for cand in raw_cfg:
+                try:
+                    r = cand["stl_reader"]["font_stack"]
+                    if isinstance(r, str) and tuple(utils.parse_font_families(r)) == c.font_stack: raw = r; break
+                except Exception: pass
         G.stl_cfg_lit(c, raw)
         return dict(disable_fill_line_gap=c.disable_fill_line_gap, program_start_tc=c.program_start_tc, disable_line_padding=c.disable_line_padding,
                     font_stack=None if c.font_stack is None else raw, max_row_count=c.max_row_count)
@@ -401,19 +407,19 @@ def src_lits(c):
     def parse(t):
         try: return ("ok", json.loads(t))
         except ValueError: return ("bad", None)
-    inl, raw = "IAbsent", None
+    inl, raw, raws = "IAbsent", None, []
     if c["inline"] is not None:
         k, v = parse(c["inline"])
         inl = f"(IGiven {G.jlit(v)})" if k == "ok" else "IMalformed"
-        if k == "ok": raw = v
+        if k == "ok": raw = v; raws.append(v)
     fil = "FAbsent"
     if c["file"] is not None:
         if c["file"][0] == "missing": fil = "FUnreadable"
         else:
             k, v = parse(c["file"][1])
             fil = f"(FGiven {G.jlit(v)})" if k == "ok" else "FMalformed"
-            if k == "ok": raw = v
-    return inl, fil, raw
+            if k == "ok": raw = v; raws.insert(0, v)
+    return inl, fil, raw, raws
 
 
 def argv_lit(c):
@@ -596,7 +602,7 @@ def body(run, proofs_ok, root, n_cases, n_probes, n_paths, quick):
     cases = gen_cases(rng, n_cases, docs)
     for c in cases:
         c["dir"] = materialise(c, root + "/cli"); c["odir"] = materialise(c, root + "/obs"); c["argv"] = argv_of(c)
-        c["inl"], c["fil"], c["raw"] = src_lits(c)
+        c["inl"], c["fil"], c["raw"], c["raws"] = src_lits(c)
     run.log(f"{len(cases)} command lines generated")
 
     # ---- a. the real CLI, one fresh process per command line
@@ -605,7 +611,7 @@ def body(run, proofs_ok, root, n_cases, n_probes, n_paths, quick):
     run.log("CLI runs done")
     # ---- b. observed plans (real tt.main, recorders instead of readers/filters/writers)
     with ProcessPoolExecutor(C.NCPU, initializer=_obs_init) as ex:
-        obs = list(ex.map(observe, [(c["odir"], c["argv"], c["raw"]) for c in cases], chunksize=8))
+        obs = list(ex.map(observe, [(c["odir"], c["argv"], c["raws"]) for c in cases], chunksize=8))
     # ---- c. the library pipeline on the observed plan
     jobs = [(o, c["dir"] + "/" + c["input"]) for c, o in zip(cases, obs) if o["kind"] == "plan"]
     with ProcessPoolExecutor(C.NCPU, initializer=_lib_init) as ex:
@@ -635,6 +641,7 @@ def body(run, proofs_ok, root, n_cases, n_probes, n_paths, quick):
     C.clean_cases("Cases_C19_")
     shards = []; cur = []; size = 0
     for i, (c, o) in enumerate(zip(cases, obs)):
+        if o["kind"] == "error" and o["exn"].startswith("other:"): continue
         lit = f"({argv_lit(c)}, {c['inl']}, {c['fil']}, {plan_lit(o)}, {C.z(c['rc'])}, {C.boolean(c['out'] is not None)}, {c['cmp']})"
         cur.append((i, lit)); size += len(lit)
         if size > 150000: shards.append(cur); cur = []; size = 0
